@@ -30,12 +30,12 @@ Lemma Rlit_milli : Rlit 1 (-3) = / 1000.
 Proof. unfold Rlit. cbn. lra. Qed.
 
 (** _generate_field_data after the trace, on one ray *)
-Lemma field_data_on_records w opd_ref xc yc zc Rr ft f0 f1 maxx maxy dx dy E l0 recs :
+Lemma field_data_on_records w opd_ref xc yc zc Rr nimg ft f0 f1 maxf vx vy dx dy E nobj l0 recs :
   let e := image_rec l0 recs in
-  k_wf_field_data ROps w opd_ref xc yc zc Rr (col ri l0 recs) (col ropd l0 recs) (col rx l0 recs)
+  k_wf_field_data ROps w opd_ref xc yc zc Rr (col ri l0 recs) (col ropd l0 recs) nimg (col rx l0 recs)
      (col ry l0 recs) (col rz l0 recs) (col rL l0 recs) (col rM l0 recs) (col rN l0 recs)
-     ft f0 f1 maxx maxy dx dy E
-  = ((opd_ref - k_wf_tilt_dist ROps (ropd e - dist_back xc yc zc Rr e) ft f0 f1 maxx maxy dx dy E)
+     ft f0 f1 maxf vx vy dx dy E nobj
+  = ((opd_ref - k_wf_tilt_dist ROps (ropd e - Rabs nimg * dist_back xc yc zc Rr e) ft f0 f1 maxf vx vy dx dy E nobj)
        / (w * / 1000), ri e).
 Proof.
   intros e. unfold k_wf_field_data.
@@ -49,13 +49,14 @@ Proof.
 Qed.
 
 (** _trace_chief_ray + _get_reference_sphere + _get_path_length + _correct_tilt(x=0, y=0) *)
-Lemma chief_ref_on_records ss pz (c : wfcfg ROps) Hx Hy l0 recs :
+Lemma chief_ref_on_records ss pz (c : wfcfg ROps) Hx Hy vx vy l0 recs :
   trace ss l0 = Some recs ->
   let e := image_rec l0 recs in
   let Rr := sqrt (ref_radius_sq (rx e, ry e, rz e) pz) in
-  chief_ref ss pz c Hx Hy l0 =
+  chief_ref ss pz c Hx Hy vx vy l0 =
   Some (rx e, ry e, rz e, Rr,
-        k_wf_tilt_xy ROps (ropd e - dist_back (rx e) (ry e) (rz e) Rr e) 0 0 (w_ftype c) Hx Hy (w_maxx c) (w_maxy c) (w_EPD c)).
+        k_wf_tilt_xy ROps (ropd e - Rabs (n_image ss) * dist_back (rx e) (ry e) (rz e) Rr e) 0 0 (w_ftype c) Hx Hy
+                     (w_maxfield c) vx vy (w_EPD c) (n_object ss)).
 Proof.
   intros Ht e Rr. unfold chief_ref. rewrite Ht.
   destruct (col_snoc ropd l0 recs) as [po Eo].
@@ -70,26 +71,29 @@ Proof.
   - unfold Rr, ref_radius_sq, sqdist, dot3, sub3, px, py, S_C09.pz. cbn [fst snd]. f_equal. ring.
 Qed.
 
-Lemma sample_on_records ss (c : wfcfg ROps) w Hx Hy xc yc zc Rr opd_ref l0 dx dy recs :
+Lemma sample_on_records ss (c : wfcfg ROps) w Hx Hy vx vy xc yc zc Rr opd_ref l0 dx dy recs :
   trace ss l0 = Some recs ->
   let e := image_rec l0 recs in
-  sample ss c w Hx Hy (xc, yc, zc, Rr, opd_ref) l0 dx dy =
-  Some ((opd_ref - k_wf_tilt_dist ROps (ropd e - dist_back xc yc zc Rr e) (w_ftype c) Hx Hy (w_maxx c) (w_maxy c) dx dy (w_EPD c))
+  sample ss c w Hx Hy vx vy (xc, yc, zc, Rr, opd_ref) l0 dx dy =
+  Some ((opd_ref - k_wf_tilt_dist ROps (ropd e - Rabs (n_image ss) * dist_back xc yc zc Rr e) (w_ftype c) Hx Hy
+                                   (w_maxfield c) vx vy dx dy (w_EPD c) (n_object ss))
           / (w * / 1000), ri e).
 Proof. intros Ht e. unfold sample. rewrite Ht, field_data_on_records. reflexivity. Qed.
 
 (** ** the chief ray's own sample is exactly zero *)
 Theorem chief_sample_zero :
-  forall ss pz (c : wfcfg ROps) w Hx Hy l0 ref v i,
-    chief_ref ss pz c Hx Hy l0 = Some ref ->
-    sample ss c w Hx Hy ref l0 0 0 = Some (v, i) ->
+  forall ss pz (c : wfcfg ROps) w Hx Hy vx vy l0 ref v i,
+    chief_ref ss pz c Hx Hy vx vy l0 = Some ref ->
+    sample ss c w Hx Hy vx vy ref l0 0 0 = Some (v, i) ->
     v = 0.
 Proof.
-  intros ss pz c w Hx Hy l0 ref v i Hc Hs.
+  intros ss pz c w Hx Hy vx vy l0 ref v i Hc Hs.
   destruct (trace ss l0) as [recs|] eqn:Ht; [|unfold chief_ref in Hc; rewrite Ht in Hc; discriminate].
-  rewrite (chief_ref_on_records ss pz c Hx Hy l0 recs Ht) in Hc. injection Hc as <-.
-  rewrite (sample_on_records ss c w Hx Hy _ _ _ _ _ l0 0 0 recs Ht) in Hs. injection Hs as <- _.
-  rewrite tilt_dist_is_tilt_xy. unfold k_wf_tilt_xy. rops.
+  rewrite (chief_ref_on_records ss pz c Hx Hy vx vy l0 recs Ht) in Hc. injection Hc as <-.
+  rewrite (sample_on_records ss c w Hx Hy vx vy _ _ _ _ _ l0 0 0 recs Ht) in Hs. injection Hs as <- _.
+  rewrite tilt_dist_is_tilt_xy.
+  replace (0 * ((1 - vx) * (1 - vx))) with 0 by ring. replace (0 * ((1 - vy) * (1 - vy))) with 0 by ring.
+  unfold k_wf_tilt_xy. rops.
   destruct (String.eqb (w_ftype c) "angle"); Req; unfold Rdiv; ring.
 Qed.
 
@@ -114,16 +118,16 @@ Qed.
 
 (** every entry of the reported cell is the sample of the corresponding launched ray *)
 Theorem field_data_from_samples :
-  forall ss pz (c : wfcfg ROps) w Hx Hy chief batch opds ints,
-    field_data_from ss pz c w Hx Hy chief batch = Some (opds, ints) ->
-    exists ref, chief_ref ss pz c Hx Hy chief = Some ref /\
+  forall ss pz (c : wfcfg ROps) w Hx Hy vx vy chief batch opds ints,
+    field_data_from ss pz c w Hx Hy vx vy chief batch = Some (opds, ints) ->
+    exists ref, chief_ref ss pz c Hx Hy vx vy chief = Some ref /\
       List.length opds = List.length batch /\ List.length ints = List.length batch /\
       forall k l0 dx dy, nth_error batch k = Some (l0, (dx, dy)) ->
-        exists v i, sample ss c w Hx Hy ref l0 dx dy = Some (v, i) /\
+        exists v i, sample ss c w Hx Hy vx vy ref l0 dx dy = Some (v, i) /\
                     nth_error opds k = Some v /\ nth_error ints k = Some i.
 Proof.
-  intros ss pz c w Hx Hy chief batch opds ints H. unfold field_data_from in H. revert H.
-  destruct (chief_ref ss pz c Hx Hy chief) as [ref|]; [|discriminate].
+  intros ss pz c w Hx Hy vx vy chief batch opds ints H. unfold field_data_from in H. revert H.
+  destruct (chief_ref ss pz c Hx Hy vx vy chief) as [ref|]; [|discriminate].
   destruct (sequence _) as [cells|] eqn:Es; [|discriminate]. intros H. injection H as <- <-.
   exists ref. split; [reflexivity|].
   pose proof (sequence_length _ _ Es) as Hl. rewrite map_length in Hl.
@@ -148,66 +152,68 @@ Proof.
   pose proof (sequence_nth _ _ Es k) as Hn. rewrite nth_error_map, Hk in Hn. cbn [option_map] in Hn.
   change (@ofZ ROps 0) with 0 in Ec. rewrite Ec in Hn.
   rops. revert Hn. destruct (nth_error batch k) as [b|] eqn:Eb; cbn; intros Hn; [|discriminate]. injection Hn as <-.
-  destruct (field_data_from_samples _ _ _ _ _ _ _ _ _ _ H) as [ref [Hr [_ [_ Hall]]]].
+  destruct (field_data_from_samples _ _ _ _ _ _ _ _ _ _ _ _ H) as [ref [Hr [_ [_ Hall]]]].
   destruct (Hall k chief 0 0 Eb) as [v [i [Hs [Hv _]]]].
   assert (Hz : v = 0) by (eapply chief_sample_zero; eassumption). subst v. exact Hv.
 Qed.
 
 (** ** the reported sample is the path difference of the specification *)
-(** infinite object, angular field along y.  Partial: the field has no vignetting factor, fields.max_y_field
-    = fields.max_field, and object- and image-space indices are 1 (the four recorded findings of C09 are
-    exactly the failures of these hypotheses). *)
-Theorem opd_definition_infinite_partial :
-  forall ss pz (wc : wfcfg ROps) (lc : launchcfg ROps) w Hy dx dy l0c l0 recs_c recs ref v i,
+(** infinite object, angular field along y; any vignetting factors; object- and image-space media of any
+    index (|n|: a mirror system may carry the index with a sign). *)
+Theorem opd_definition_infinite :
+  forall ss pz (wc : wfcfg ROps) (lc : launchcfg ROps) w Hy vx vy dx dy l0c l0 recs_c recs ref v i,
     lc_infinite lc = true -> lc_angle lc = true -> lc_pos1 lc = 0 ->
     0 < lc_EPD lc - lc_minpos lc + lc_EPL lc -> 0 < cos (rad (lc_maxfield lc * Hy)) ->
-    w_ftype wc = "angle"%string -> w_maxy wc = lc_maxfield lc -> w_EPD wc = lc_EPD lc ->
-    launch lc w 0 Hy (scaled (O:=ROps) 0 0) (scaled (O:=ROps) 0 0) 0 0 = Some l0c ->
-    launch lc w 0 Hy (scaled (O:=ROps) dx 0) (scaled (O:=ROps) dy 0) 0 0 = Some l0 ->
+    w_ftype wc = "angle"%string -> w_maxfield wc = lc_maxfield lc -> w_EPD wc = lc_EPD lc ->
+    launch lc w 0 Hy (scaled (O:=ROps) 0 vx) (scaled (O:=ROps) 0 vy) vx vy = Some l0c ->
+    launch lc w 0 Hy (scaled (O:=ROps) dx vx) (scaled (O:=ROps) dy vy) vx vy = Some l0 ->
     trace ss l0c = Some recs_c -> trace ss l0 = Some recs ->
-    chief_ref ss pz wc 0 Hy l0c = Some ref ->
-    sample ss wc w 0 Hy ref l0 dx dy = Some (v, i) ->
+    chief_ref ss pz wc 0 Hy vx vy l0c = Some ref ->
+    sample ss wc w 0 Hy vx vy ref l0 dx dy = Some (v, i) ->
     let ec := image_rec l0c recs_c in
     let e := image_rec l0 recs in
     let Rr := sqrt (ref_radius_sq (rx ec, ry ec, rz ec) pz) in
+    let n_obj := Rabs (n_object ss) in
+    let n_img := Rabs (n_image ss) in
     v = opd_waves
-          (path_to_sphere 0 (ropd ec) 1 (dist_back (rx ec) (ry ec) (rz ec) Rr ec))
-          (path_to_sphere (plane_wave_path 1 (rL l0, rM l0, rN l0) (rx l0c, ry l0c, rz l0c) (rx l0, ry l0, rz l0))
-                          (ropd e) 1 (dist_back (rx ec) (ry ec) (rz ec) Rr e))
+          (path_to_sphere 0 (ropd ec) n_img (dist_back (rx ec) (ry ec) (rz ec) Rr ec))
+          (path_to_sphere (plane_wave_path n_obj (rL l0, rM l0, rN l0) (rx l0c, ry l0c, rz l0c) (rx l0, ry l0, rz l0))
+                          (ropd e) n_img (dist_back (rx ec) (ry ec) (rz ec) Rr e))
           w.
 Proof.
-  intros ss pz wc lc w Hy dx dy l0c l0 recs_c recs ref v i Hinf Hang Hp1 HD Hcos Hft Hmy HE Hl0c Hl0 Htc Ht Hc Hs.
+  intros ss pz wc lc w Hy vx vy dx dy l0c l0 recs_c recs ref v i Hinf Hang Hp1 HD Hcos Hft Hmf HE Hl0c Hl0 Htc Ht Hc Hs.
   cbv zeta.
-  rewrite (chief_ref_on_records ss pz wc 0 Hy l0c recs_c Htc) in Hc. injection Hc as <-.
-  rewrite (sample_on_records ss wc w 0 Hy _ _ _ _ _ l0 dx dy recs Ht) in Hs. injection Hs as <- _.
+  rewrite (chief_ref_on_records ss pz wc 0 Hy vx vy l0c recs_c Htc) in Hc. injection Hc as <-.
+  rewrite (sample_on_records ss wc w 0 Hy vx vy _ _ _ _ _ l0 dx dy recs Ht) in Hs. injection Hs as <- _.
   rops. set (ec := image_rec l0c recs_c) in *. set (e := image_rec l0 recs) in *.
   set (Rr := sqrt (ref_radius_sq (rx ec, ry ec, rz ec) pz)) in *.
-  pose proof (tilt_matches_launch_partial lc w Hy dx dy (ropd ec - dist_back (rx ec) (ry ec) (rz ec) Rr ec)
-                (ropd e - dist_back (rx ec) (ry ec) (rz ec) Rr e) (w_maxx wc) l0 l0c Hinf Hang Hp1 HD Hcos Hl0 Hl0c) as Heq.
-  rewrite Hft, Hmy, HE. unfold k_wf_tilt_xy, k_wf_tilt_dist in *. cbn [String.eqb Ascii.eqb Bool.eqb] in *. rops.
+  pose proof (tilt_matches_launch lc w Hy dx dy vx vy (ropd ec - Rabs (n_image ss) * dist_back (rx ec) (ry ec) (rz ec) Rr ec)
+                (ropd e - Rabs (n_image ss) * dist_back (rx ec) (ry ec) (rz ec) Rr e) (n_object ss) l0 l0c
+                Hinf Hang Hp1 HD Hcos Hl0 Hl0c) as Heq.
+  rewrite Hft, Hmf, HE. unfold k_wf_tilt_xy, k_wf_tilt_dist in *. cbn [String.eqb Ascii.eqb Bool.eqb] in *. rops.
   unfold opd_waves, path_to_sphere. Req. f_equal. lra.
 Qed.
 
-(** finite object, height fields: no launch offset (every ray starts at the object point).
-    Partial: image-space index 1. *)
-Theorem opd_definition_finite_partial :
-  forall ss pz (wc : wfcfg ROps) w Hx Hy dx dy l0c l0 recs_c recs ref v i,
+(** finite object, height fields: no launch offset (every ray starts at the object point) *)
+Theorem opd_definition_finite :
+  forall ss pz (wc : wfcfg ROps) w Hx Hy vx vy dx dy l0c l0 recs_c recs ref v i,
     w_ftype wc = "object_height"%string ->
     trace ss l0c = Some recs_c -> trace ss l0 = Some recs ->
-    chief_ref ss pz wc Hx Hy l0c = Some ref ->
-    sample ss wc w Hx Hy ref l0 dx dy = Some (v, i) ->
+    chief_ref ss pz wc Hx Hy vx vy l0c = Some ref ->
+    sample ss wc w Hx Hy vx vy ref l0 dx dy = Some (v, i) ->
     let ec := image_rec l0c recs_c in
     let e := image_rec l0 recs in
     let Rr := sqrt (ref_radius_sq (rx ec, ry ec, rz ec) pz) in
+    let n_img := Rabs (n_image ss) in
     v = opd_waves
-          (path_to_sphere 0 (ropd ec) 1 (dist_back (rx ec) (ry ec) (rz ec) Rr ec))
-          (path_to_sphere 0 (ropd e) 1 (dist_back (rx ec) (ry ec) (rz ec) Rr e))
+          (path_to_sphere 0 (ropd ec) n_img (dist_back (rx ec) (ry ec) (rz ec) Rr ec))
+          (path_to_sphere 0 (ropd e) n_img (dist_back (rx ec) (ry ec) (rz ec) Rr e))
           w.
 Proof.
-  intros ss pz wc w Hx Hy dx dy l0c l0 recs_c recs ref v i Hft Htc Ht Hc Hs.
+  intros ss pz wc w Hx Hy vx vy dx dy l0c l0 recs_c recs ref v i Hft Htc Ht Hc Hs.
   cbv zeta.
-  rewrite (chief_ref_on_records ss pz wc Hx Hy l0c recs_c Htc) in Hc. injection Hc as <-.
-  rewrite (sample_on_records ss wc w Hx Hy _ _ _ _ _ l0 dx dy recs Ht) in Hs. injection Hs as <- _.
+  rewrite (chief_ref_on_records ss pz wc Hx Hy vx vy l0c recs_c Htc) in Hc. injection Hc as <-.
+  rewrite (sample_on_records ss wc w Hx Hy vx vy _ _ _ _ _ l0 dx dy recs Ht) in Hs. injection Hs as <- _.
   rops. set (ec := image_rec l0c recs_c) in *. set (e := image_rec l0 recs) in *.
   set (Rr := sqrt (ref_radius_sq (rx ec, ry ec, rz ec) pz)) in *.
   rewrite Hft. unfold k_wf_tilt_xy, k_wf_tilt_dist. cbn [String.eqb Ascii.eqb Bool.eqb]. rops.
@@ -240,22 +246,22 @@ Proof.
   - unfold on_sphere, R2, ref_radius_sq. reflexivity.
 Qed.
 
-(** the hypotheses of [opd_definition_infinite_partial] are satisfiable (degenerate lens with no surface:
+(** the hypotheses of [opd_definition_infinite] are satisfiable (degenerate lens with no surface:
     the image record is the launch record) *)
 Example opd_definition_infinite_example :
   exists l0c l0 ref v i,
     launch lc_example (55/100) 0 1 (scaled (O:=ROps) 0 0) (scaled (O:=ROps) 0 0) 0 0 = Some l0c /\
     launch lc_example (55/100) 0 1 (scaled (O:=ROps) 0 0) (scaled (O:=ROps) 1 0) 0 0 = Some l0 /\
     trace (O:=ROps) [] l0c = Some [] /\ trace (O:=ROps) [] l0 = Some [] /\
-    chief_ref (O:=ROps) [] (-50) (mkWC (O:=ROps) "angle" 0 30 10) 0 1 l0c = Some ref /\
-    sample (O:=ROps) [] (mkWC (O:=ROps) "angle" 0 30 10) (55/100) 0 1 ref l0 0 1 = Some (v, i).
+    chief_ref (O:=ROps) [] (-50) (mkWC (O:=ROps) "angle" 30 10) 0 1 0 0 l0c = Some ref /\
+    sample (O:=ROps) [] (mkWC (O:=ROps) "angle" 30 10) (55/100) 0 1 0 0 ref l0 0 1 = Some (v, i).
 Proof.
   destruct tilt_matches_launch_example as [r [r0 [Hr [Hr0 _]]]].
   exists r0, r.
-  pose proof (chief_ref_on_records [] (-50) (mkWC (O:=ROps) "angle" 0 30 10) 0 1 r0 [] eq_refl) as Hc.
+  pose proof (chief_ref_on_records [] (-50) (mkWC (O:=ROps) "angle" 30 10) 0 1 0 0 r0 [] eq_refl) as Hc.
   cbv zeta in Hc. eexists. eexists. eexists.
   split; [exact Hr0|]. split; [exact Hr|]. split; [reflexivity|]. split; [reflexivity|].
-  split; [exact Hc|]. rewrite (sample_on_records [] _ _ _ _ _ _ _ _ _ r 0 1 [] eq_refl). reflexivity.
+  split; [exact Hc|]. rewrite (sample_on_records [] _ _ _ _ _ _ _ _ _ _ _ r 0 1 [] eq_refl). reflexivity.
 Qed.
 
 (** ** Wavefront._generate_data: one cell per (field, wavelength), each the field data of that pair *)
